@@ -118,6 +118,25 @@ func (p *Prog) resolveGuardTable(c *Ctx, keep func(string) bool) (map[*types.Var
 			}
 		}
 	}
+	// fields grouped into a new sub-struct are guarded by their canonical owner's mutexes
+	ownerMus := map[string][]*types.Var{}
+	for fv, mus := range cands {
+		if fv.IsField() && len(mus) > 0 {
+			n := p.FieldName(fv)
+			if i := strings.LastIndex(n, "."); i > 0 {
+				ownerMus[n[:i]] = mus
+			}
+		}
+	}
+	for fv, mus := range cands {
+		if !fv.IsField() || len(mus) > 0 {
+			continue
+		}
+		n := p.FieldName(fv)
+		if i := strings.LastIndex(n, "."); i > 0 && len(ownerMus[n[:i]]) > 0 {
+			cands[fv] = ownerMus[n[:i]]
+		}
+	}
 	want := map[*types.Var]string{}
 	for _, fn := range guardedFields {
 		if keep != nil && !keep(fn) {
